@@ -1,0 +1,71 @@
+//go:build verif
+
+// Contracts for deductive verification (read by /verif/govc). Comment-only: this file adds no code.
+package keeper
+
+//@ store Worker kv=market/Worker/value/ key=market_WorkerKey val=github.com/SaoNetwork/sao/x/market/types.Worker
+
+//@ accessor get (Keeper) GetWorker Worker(workername)
+//@ accessor set (Keeper) SetWorker Worker(worker.Workername) worker
+//@ accessor del (Keeper) RemoveWorker Worker(workername)
+
+// WorkerRelease: settle the provider's accrued income up to this block and stop earning for this shard.
+//@ func (Keeper) WorkerRelease(ctx, order, shard) (err)
+//@   requires order != nil && shard != nil ==> (has(Worker, sprintf("%s-%s", order.Amount.Denom, shard.Sp)) ==> Worker[sprintf("%s-%s", order.Amount.Denom, shard.Sp)].Workername == sprintf("%s-%s", order.Amount.Denom, shard.Sp))
+//@   modifies Worker[sprintf("%s-%s", order.Amount.Denom, shard.Sp)]
+//@   ensures [C04.release.found] err == nil ==> order != nil && shard != nil && old(has(Worker, sprintf("%s-%s", order.Amount.Denom, shard.Sp))) && has(Worker, sprintf("%s-%s", order.Amount.Denom, shard.Sp))
+//@   ensures [C04.release.accrue] err == nil && old(Worker[sprintf("%s-%s", order.Amount.Denom, shard.Sp)].LastRewardAt) >= 0 ==> Worker[sprintf("%s-%s", order.Amount.Denom, shard.Sp)].Reward.Amount
+//@       == old(Worker[sprintf("%s-%s", order.Amount.Denom, shard.Sp)].Reward.Amount + Worker[sprintf("%s-%s", order.Amount.Denom, shard.Sp)].IncomePerSecond.Amount * (H - Worker[sprintf("%s-%s", order.Amount.Denom, shard.Sp)].LastRewardAt))
+//@   ensures [C14.release.income] err == nil && shard.Size_ <= MaxInt64 ==> Worker[sprintf("%s-%s", order.Amount.Denom, shard.Sp)].IncomePerSecond.Amount
+//@       == old(Worker[sprintf("%s-%s", order.Amount.Denom, shard.Sp)].IncomePerSecond.Amount) - order.UnitPrice.Amount * shard.Size_
+//@   ensures [C14.release.storage] err == nil && shard.Size_ <= old(Worker[sprintf("%s-%s", order.Amount.Denom, shard.Sp)].Storage) ==> Worker[sprintf("%s-%s", order.Amount.Denom, shard.Sp)].Storage
+//@       == old(Worker[sprintf("%s-%s", order.Amount.Denom, shard.Sp)].Storage) - shard.Size_
+//@   ensures [C04.release.last] err == nil ==> Worker[sprintf("%s-%s", order.Amount.Denom, shard.Sp)].LastRewardAt == H
+//@       && Worker[sprintf("%s-%s", order.Amount.Denom, shard.Sp)].Workername == sprintf("%s-%s", order.Amount.Denom, shard.Sp)
+//@       && Worker[sprintf("%s-%s", order.Amount.Denom, shard.Sp)].Reward.Denom == old(Worker[sprintf("%s-%s", order.Amount.Denom, shard.Sp)].Reward.Denom)
+//@   ensures [C04.release.err] err != nil ==> Worker[sprintf("%s-%s", order.Amount.Denom, shard.Sp)] == old(Worker[sprintf("%s-%s", order.Amount.Denom, shard.Sp)])
+
+// WorkerAppend: start earning for this shard; income since the shard's creation height is credited at once.
+//@ func (Keeper) WorkerAppend(ctx, order, shard) (err)
+//@   requires order != nil && shard != nil ==> (has(Worker, sprintf("%s-%s", order.Amount.Denom, shard.Sp)) ==> Worker[sprintf("%s-%s", order.Amount.Denom, shard.Sp)].Workername == sprintf("%s-%s", order.Amount.Denom, shard.Sp))
+//@   modifies Worker[sprintf("%s-%s", order.Amount.Denom, shard.Sp)]
+//@   ensures [C04.append.ok] err == nil ==> order != nil && shard != nil && has(Worker, sprintf("%s-%s", order.Amount.Denom, shard.Sp))
+//@   ensures [C04.append.accrue] err == nil && shard.Size_ <= MaxInt64 && shard.CreatedAt <= MaxInt64 && old(has(Worker, sprintf("%s-%s", order.Amount.Denom, shard.Sp))) && old(Worker[sprintf("%s-%s", order.Amount.Denom, shard.Sp)].LastRewardAt) >= 0 ==>
+//@       Worker[sprintf("%s-%s", order.Amount.Denom, shard.Sp)].Reward.Amount
+//@       == old(Worker[sprintf("%s-%s", order.Amount.Denom, shard.Sp)].Reward.Amount) + order.UnitPrice.Amount * shard.Size_ * (H - shard.CreatedAt)
+//@        + (old(Worker[sprintf("%s-%s", order.Amount.Denom, shard.Sp)].Storage) > 0 ? old(Worker[sprintf("%s-%s", order.Amount.Denom, shard.Sp)].IncomePerSecond.Amount * (H - Worker[sprintf("%s-%s", order.Amount.Denom, shard.Sp)].LastRewardAt)) : 0)
+//@   ensures [C04.append.new] err == nil && shard.Size_ <= MaxInt64 && shard.CreatedAt <= MaxInt64 && !old(has(Worker, sprintf("%s-%s", order.Amount.Denom, shard.Sp))) ==>
+//@       Worker[sprintf("%s-%s", order.Amount.Denom, shard.Sp)].Reward.Amount == order.UnitPrice.Amount * shard.Size_ * (H - shard.CreatedAt)
+//@       && Worker[sprintf("%s-%s", order.Amount.Denom, shard.Sp)].IncomePerSecond.Amount == order.UnitPrice.Amount * shard.Size_
+//@       && Worker[sprintf("%s-%s", order.Amount.Denom, shard.Sp)].Storage == shard.Size_
+//@   ensures [C14.append.income] err == nil && shard.Size_ <= MaxInt64 && old(has(Worker, sprintf("%s-%s", order.Amount.Denom, shard.Sp))) ==> Worker[sprintf("%s-%s", order.Amount.Denom, shard.Sp)].IncomePerSecond.Amount
+//@       == old(Worker[sprintf("%s-%s", order.Amount.Denom, shard.Sp)].IncomePerSecond.Amount) + order.UnitPrice.Amount * shard.Size_
+//@   ensures [C14.append.storage] err == nil && old(has(Worker, sprintf("%s-%s", order.Amount.Denom, shard.Sp))) && shard.Size_ <= MaxUint64 - old(Worker[sprintf("%s-%s", order.Amount.Denom, shard.Sp)].Storage)
+//@       ==> Worker[sprintf("%s-%s", order.Amount.Denom, shard.Sp)].Storage == old(Worker[sprintf("%s-%s", order.Amount.Denom, shard.Sp)].Storage) + shard.Size_
+//@   ensures [C04.append.last] err == nil ==> Worker[sprintf("%s-%s", order.Amount.Denom, shard.Sp)].LastRewardAt == H
+//@       && Worker[sprintf("%s-%s", order.Amount.Denom, shard.Sp)].Workername == sprintf("%s-%s", order.Amount.Denom, shard.Sp)
+
+// Claim: pays the whole-coin part of the accrued income and keeps the fraction.
+//@ func (Keeper) Claim(ctx, denom, sp) (coin, err)
+//@   requires has(Worker, sprintf("%s-%s", denom, sp)) ==> Worker[sprintf("%s-%s", denom, sp)].Workername == sprintf("%s-%s", denom, sp)
+//@   modifies Worker[sprintf("%s-%s", denom, sp)]
+//@   ensures [C04.claim.noerr] err == nil && coin.Denom == denom && coin.Amount >= 0
+//@   ensures [C04.claim.none] !old(has(Worker, sprintf("%s-%s", denom, sp))) ==> coin.Amount == 0 && !has(Worker, sprintf("%s-%s", denom, sp))
+//@   ensures [C04.claim.amount] old(has(Worker, sprintf("%s-%s", denom, sp))) && old(Worker[sprintf("%s-%s", denom, sp)].LastRewardAt) >= 0 ==>
+//@       coin.Amount == old(Worker[sprintf("%s-%s", denom, sp)].Reward.Amount + Worker[sprintf("%s-%s", denom, sp)].IncomePerSecond.Amount * (H - Worker[sprintf("%s-%s", denom, sp)].LastRewardAt)) / 1000000000000000000
+//@   ensures [C04.claim.rest] old(has(Worker, sprintf("%s-%s", denom, sp))) && old(Worker[sprintf("%s-%s", denom, sp)].LastRewardAt) >= 0 && coin.Amount > 0 ==>
+//@       Worker[sprintf("%s-%s", denom, sp)].Reward.Amount + coin.Amount * 1000000000000000000
+//@         == old(Worker[sprintf("%s-%s", denom, sp)].Reward.Amount + Worker[sprintf("%s-%s", denom, sp)].IncomePerSecond.Amount * (H - Worker[sprintf("%s-%s", denom, sp)].LastRewardAt))
+//@       && Worker[sprintf("%s-%s", denom, sp)].LastRewardAt == H
+//@       && Worker[sprintf("%s-%s", denom, sp)].IncomePerSecond == old(Worker[sprintf("%s-%s", denom, sp)].IncomePerSecond)
+//@       && Worker[sprintf("%s-%s", denom, sp)].Storage == old(Worker[sprintf("%s-%s", denom, sp)].Storage)
+//@   ensures [C04.claim.zero] old(has(Worker, sprintf("%s-%s", denom, sp))) && coin.Amount == 0 ==> Worker[sprintf("%s-%s", denom, sp)] == old(Worker[sprintf("%s-%s", denom, sp)])
+
+// Deposit: the whole order amount moves from the order escrow to the market escrow.
+//@ func (Keeper) Deposit(ctx, order) (err)
+//@   modifies Bank
+//@   ensures [C04.deposit] err == nil && moduleAddr("order") != moduleAddr("market") ==> order.Amount.Amount > 0
+//@       && bal(moduleAddr("market"), order.Amount.Denom) == old(bal(moduleAddr("market"), order.Amount.Denom)) + order.Amount.Amount
+//@       && bal(moduleAddr("order"), order.Amount.Denom) == old(bal(moduleAddr("order"), order.Amount.Denom)) - order.Amount.Amount
+//@   ensures [C04.deposit.frame] forall a addr, d string :: (a != moduleAddr("order") && a != moduleAddr("market")) || d != order.Amount.Denom ==> bal(a, d) == old(bal(a, d))
+//@   ensures [C04.deposit.err] err != nil ==> forall a addr, d string :: bal(a, d) == old(bal(a, d))
